@@ -169,6 +169,11 @@ func (s *s1) checkC03(i int, out *TxnOutcome) {
 			}
 		}
 		e.ViolateK("C03.accepts-invalid", key, "transaction %d was accepted but RFC 7047 prescribes: %s\nops: %s\nreply: %s", i, why, shortOps(out.Ops), out.Call.Result)
+		if key == "mutate:range" && !e.Stopped() {
+			// a listed finding: the database now holds a wrapped integer or a non-finite
+			// real (and may have lost the row altogether); nothing more can be learnt
+			e.Abort("database holds an out-of-range value (known finding earlier in this run)")
+		}
 		return
 	}
 	if len(out.Res) != len(out.Ops) {
